@@ -10,6 +10,19 @@ Arguments wf_path_not_set {w dl} _.
 Arguments wf_path_not_reserved {w dl} _.
 Arguments wf_set_not_reserved {w dl} _.
 
+(* is n the name of a declared product? *)
+Lemma declared_dec (l : world) n :
+  (exists p, In p l /\ p_name p = n) \/ (forall p, ~ (In p l /\ p_name p = n)).
+Proof.
+  induction l as [|q l IH].
+  - right. intros p [[] _].
+  - destruct (str_eq_dec (p_name q) n) as [E|N].
+    + left. exists q. split; [now left|assumption].
+    + destruct IH as [[p [Hin Hn]]|Hno].
+      * left. exists p. split; [now right|assumption].
+      * right. intros p [[<-|Hin] Hn]; [now apply N|]. apply (Hno p). split; assumption.
+Qed.
+
 Section Inv.
 Variable w : world.
 Variable cfg : config.
@@ -29,11 +42,18 @@ Notation depth_ok := (depth_ok cfg).
 
 Definition word (x : str) : Prop := x <> [] /\ mem_ascii c_space x = false.
 
+(* the names the world speaks about: names of declared products and targets of setupRequired /
+   setupOptional lines.  own_var n k holds of ANY string n for its three reserved variables, and two
+   different strings can have the same upper-case form (SETUP_A is owned by both a and A), so apartness
+   of variables can only be asked of names the world knows. *)
+Definition known (n : str) : Prop :=
+  exists p, In p w /\ (p_name p = n \/ exists o j, In (ASetup o n j) (p_actions p)).
+
 Record WF2 : Prop := {
   wf_base : WF w dl;
   wf_rank : forall n m, dep_edge w n m -> rank m < rank n;
   wf_elem_apart : forall n m var v, n <> m -> own_elem n var v -> ~ own_elem m var v;
-  wf_var_apart : forall n m k, n <> m -> own_var n k -> ~ own_var m k;
+  wf_var_apart : forall n m k, known n -> known m -> n <> m -> own_var n k -> ~ own_var m k;
   wf_versions_path : forall p q ap var v d ap' d', In p w -> In q w -> p_name p = p_name q -> p <> q ->
       In (APath ap var v d) (p_actions p) -> ~ In (APath ap' var v d') (p_actions q);
   wf_versions_set : forall p q k v, In p w -> In q w -> p_name p = p_name q -> p <> q ->
@@ -65,6 +85,38 @@ Definition Inv (e : amap str) : Prop := forall name, clause name e.
 Definition lowinv (r : nat) (e : amap str) : Prop := forall n, rank n < r -> clause n e.
 
 (* ---------------------------------------------------------------- ranks and touched names *)
+
+Lemma known_has_name n p : has_name n p -> known n.
+Proof. intros [Hin Hn]. exists p. split; [assumption|now left]. Qed.
+
+Lemma known_dep n m : dep_edge w n m -> known m.
+Proof. intros [p [o [j [[Hin _] Ha]]]]. exists p. split; [assumption|right; now exists o, j]. Qed.
+
+Lemma touches_known b n k : known n -> touches b n k -> known k.
+Proof.
+  intros Kn Ht. induction Ht as [b n|b n m k Hp He Ht IH]; [assumption|].
+  apply IH. now apply (known_dep n m).
+Qed.
+
+(* a call of setup on a name that is not declared changes nothing *)
+Lemma setup_step_undeclared rec st ds name fwd depth just :
+  (forall p, ~ has_name name p) ->
+  match setup_step w cfg rec st ds name fwd depth just with
+  | RDone ok st' _ => ok = false /\ st' = st
+  | RRaise _ _ => False
+  | _ => True
+  end.
+Proof.
+  intro Hno. unfold setup_step.
+  assert (Hf : forall e, find_setup_product w e name = None).
+  { intro e. destruct (find_setup_product w e name) as [p|] eqn:E; [|reflexivity].
+    exfalso. apply (Hno p). now apply (find_setup_product_spec w e name p). }
+  destruct fwd.
+  - destruct ds as [|[v|] ds1]; auto.
+    destruct (find_pv w name v) as [p|] eqn:E; auto.
+    exfalso. apply (Hno p). now destruct (find_pv_spec w name v p E).
+  - rewrite Hf. auto.
+Qed.
 
 Lemma touches_rank (H : WF2) b n k : touches b n k -> k = n \/ rank k < rank n.
 Proof.
@@ -102,11 +154,12 @@ Proof.
 Qed.
 
 Lemma frame_var (H : WF2) (N : str -> Prop) e e' m k :
-  env_frame N e e' -> (forall n, N n -> n <> m) -> own_var m k -> ~ path_var k ->
+  env_frame N e e' -> (forall n, N n -> n <> m) -> (forall n, N n -> known n) -> known m ->
+  own_var m k -> ~ path_var k ->
   alookup k e' = alookup k e.
 Proof.
-  intros [V _] HN Hown Hnp. apply V; [assumption|].
-  intros n Hn Hon. apply (wf_var_apart H n m k (HN n Hn) Hon Hown).
+  intros [V _] HN HK Km Hown Hnp. apply V; [assumption|].
+  intros n Hn Hon. apply (wf_var_apart H n m k (HK n Hn) Km (HN n Hn) Hon Hown).
 Qed.
 
 Lemma set_not_path (H : WF2) p k v : In p w -> In (ASet k v) (p_actions p) -> ~ path_var k.
@@ -118,50 +171,58 @@ Lemma own_set m p k v : has_name m p -> In (ASet k v) (p_actions p) -> own_var m
 Proof. intros Hp Ha. right; right; right. exists p, v. split; assumption. Qed.
 
 Lemma frame_present (H : WF2) (N : str -> Prop) e e' m p :
-  env_frame N e e' -> (forall n, N n -> n <> m) -> has_name m p -> (present p e' <-> present p e).
+  env_frame N e e' -> (forall n, N n -> n <> m) -> (forall n, N n -> known n) -> has_name m p ->
+  (present p e' <-> present p e).
 Proof.
-  intros F HN Hp. unfold present. split; intros [A B]; split.
+  intros F HN HK Hp. pose proof (known_has_name m p Hp) as Km. unfold present. split; intros [A B]; split.
   - intros ap var v d Ha. apply (frame_elem H N e e' m p ap var v d F HN Hp Ha). now apply (A ap var v d).
-  - intros k v Ha. rewrite <- (frame_var H N e e' m k F HN (own_set m p k v Hp Ha) (set_not_path H p k v (proj1 Hp) Ha)).
+  - intros k v Ha. rewrite <- (frame_var H N e e' m k F HN HK Km (own_set m p k v Hp Ha) (set_not_path H p k v (proj1 Hp) Ha)).
     now apply B.
   - intros ap var v d Ha. apply (frame_elem H N e e' m p ap var v d F HN Hp Ha). now apply (A ap var v d).
-  - intros k v Ha. rewrite (frame_var H N e e' m k F HN (own_set m p k v Hp Ha) (set_not_path H p k v (proj1 Hp) Ha)).
+  - intros k v Ha. rewrite (frame_var H N e e' m k F HN HK Km (own_set m p k v Hp Ha) (set_not_path H p k v (proj1 Hp) Ha)).
     now apply B.
 Qed.
 
 Lemma frame_absent (H : WF2) (N : str -> Prop) e e' m p :
-  env_frame N e e' -> (forall n, N n -> n <> m) -> has_name m p -> (absent p e' <-> absent p e).
+  env_frame N e e' -> (forall n, N n -> n <> m) -> (forall n, N n -> known n) -> has_name m p ->
+  (absent p e' <-> absent p e).
 Proof.
-  intros F HN Hp. unfold absent. split; intros [A B]; split.
+  intros F HN HK Hp. pose proof (known_has_name m p Hp) as Km. unfold absent. split; intros [A B]; split.
   - intros ap var v d Ha Hin. apply (A ap var v d Ha). now apply (frame_elem H N e e' m p ap var v d F HN Hp Ha).
-  - intros k v Ha. rewrite <- (frame_var H N e e' m k F HN (own_set m p k v Hp Ha) (set_not_path H p k v (proj1 Hp) Ha)).
+  - intros k v Ha. rewrite <- (frame_var H N e e' m k F HN HK Km (own_set m p k v Hp Ha) (set_not_path H p k v (proj1 Hp) Ha)).
     now apply B.
   - intros ap var v d Ha Hin. apply (A ap var v d Ha). now apply (frame_elem H N e e' m p ap var v d F HN Hp Ha).
-  - intros k v Ha. rewrite (frame_var H N e e' m k F HN (own_set m p k v Hp Ha) (set_not_path H p k v (proj1 Hp) Ha)).
+  - intros k v Ha. rewrite (frame_var H N e e' m k F HN HK Km (own_set m p k v Hp Ha) (set_not_path H p k v (proj1 Hp) Ha)).
     now apply B.
 Qed.
 
 Lemma frame_find (H : WF2) (N : str -> Prop) e e' m :
-  env_frame N e e' -> (forall n, N n -> n <> m) ->
+  env_frame N e e' -> (forall n, N n -> n <> m) -> (forall n, N n -> known n) -> known m ->
   find_setup_product w e' m = find_setup_product w e m.
 Proof.
-  intros F HN. unfold find_setup_product.
-  rewrite (frame_var H N e e' m (setup_var m) F HN); [reflexivity|unfold SetupFrame.own_var; tauto|].
+  intros F HN HK Km. unfold find_setup_product.
+  rewrite (frame_var H N e e' m (setup_var m) F HN HK Km); [reflexivity|unfold SetupFrame.own_var; tauto|].
   apply (reserved_not_path w dl (wf_base H)). exists m. tauto.
 Qed.
 
 (* the clause of a name that a frame does not cover is unaffected *)
 Lemma frame_clause (H : WF2) (N : str -> Prop) e e' m :
-  env_frame N e e' -> (forall n, N n -> n <> m) -> clause m e -> clause m e'.
+  env_frame N e e' -> (forall n, N n -> n <> m) -> (forall n, N n -> known n) -> clause m e -> clause m e'.
 Proof.
-  intros F HN. unfold clause. rewrite (frame_find H N e e' m F HN).
+  intros F HN HK. destruct (declared_dec w m) as [[p0 Hp0]|Hno].
+  2:{ (* no product has this name: its clause says nothing *)
+      intros _. unfold clause. destruct (find_setup_product w e' m) as [p|] eqn:Hf.
+      - exfalso. apply (Hno p). now apply (find_setup_product_spec w e' m p).
+      - intros q Hq. exfalso. now apply (Hno q). }
+  pose proof (known_has_name m p0 Hp0) as Km.
+  unfold clause. rewrite (frame_find H N e e' m F HN HK Km).
   destruct (find_setup_product w e m) as [p|] eqn:Hf.
   - intros [D [P A]]. pose proof (find_setup_product_spec w e m p Hf) as Hp. split; [|split].
-    + rewrite (frame_var H N e e' m (dir_var m) F HN); [assumption|unfold SetupFrame.own_var; tauto|].
+    + rewrite (frame_var H N e e' m (dir_var m) F HN HK Km); [assumption|unfold SetupFrame.own_var; tauto|].
       apply (reserved_not_path w dl (wf_base H)). exists m. tauto.
-    + now apply (frame_present H N e e' m p F HN Hp).
-    + intros q Hq Hne. apply (frame_absent H N e e' m q F HN Hq). now apply A.
-  - intros A q Hq. apply (frame_absent H N e e' m q F HN Hq). now apply A.
+    + now apply (frame_present H N e e' m p F HN HK Hp).
+    + intros q Hq Hne. apply (frame_absent H N e e' m q F HN HK Hq). now apply A.
+  - intros A q Hq. apply (frame_absent H N e e' m q F HN HK Hq). now apply A.
 Qed.
 
 (* ---------------------------------------------------------------- single own actions *)
@@ -237,10 +298,11 @@ Lemma reserved_neq_set (H : WF2) k r : set_var k -> reserved r -> r <> k.
 Proof. intros Hs Hr ->. now apply (wf_set_not_reserved (wf_base H) k). Qed.
 
 Lemma lowinv_frame_self (H : WF2) name e e' :
-  env_frame (eq name) e e' -> lowinv (rank name) e -> lowinv (rank name) e'.
+  known name -> env_frame (eq name) e e' -> lowinv (rank name) e -> lowinv (rank name) e'.
 Proof.
-  intros F L n Hn. apply (frame_clause H (eq name) e e' n F); [|now apply L].
-  intros x <-. intros ->. lia.
+  intros Kn F L n Hn. apply (frame_clause H (eq name) e e' n F); [| |now apply L].
+  - intros x <-. intros ->. lia.
+  - now intros x <-.
 Qed.
 
 Lemma dl_of (H : WF2) p ap var v d : In p w -> In (APath ap var v d) (p_actions p) -> d = dl var.
@@ -293,7 +355,7 @@ Proof.
     + intros k2 v2 Ha2. assert (k2 <> var).
       { intros ->. apply (wf_path_not_set (wf_base H) var Hpv). exists q, v2. split; [apply Hq|assumption]. }
       rewrite E4 by assumption. now apply (QS k2 v2).
-  - now apply (lowinv_frame_self H name e e').
+  - now apply (lowinv_frame_self H name e e' (known_has_name name p Hp)).
   - assumption.
 Qed.
 
@@ -341,7 +403,7 @@ Proof.
            exact (wf_versions_set H p q k v2 Hin (proj1 Hq) Hnn Hpq Ha Ha2).
         -- rewrite Hself. discriminate.
       * rewrite Hother by assumption. now apply (QS k2 v2).
-  - now apply (lowinv_frame_self H name e e').
+  - now apply (lowinv_frame_self H name e e' (known_has_name name p Hp)).
   - assumption.
 Qed.
 
@@ -361,23 +423,23 @@ Definition fn_inv (rec : setup_fn) : Prop :=
     end.
 
 Lemma progress_frame (H : WF2) (N : str -> Prop) fwd name p todo e e' :
-  env_frame N e e' -> (forall n, N n -> n <> name) -> has_name name p ->
+  env_frame N e e' -> (forall n, N n -> n <> name) -> (forall n, N n -> known n) -> has_name name p ->
   progress fwd p todo e -> progress fwd p todo e'.
 Proof.
-  intros F HN Hp [PP PS]. split.
+  intros F HN HK Hp [PP PS]. pose proof (known_has_name name p Hp) as Km. split.
   - intros ap var v d Ha. destruct (PP ap var v d Ha) as [Ht|Hs]; [now left|right].
     pose proof (frame_elem H N e e' name p ap var v d F HN Hp Ha) as I. destruct fwd; tauto.
   - intros k v Ha. destruct (PS k v Ha) as [Ht|Hs]; [now left|right].
-    rewrite (frame_var H N e e' name k F HN (own_set name p k v Hp Ha) (set_not_path H p k v (proj1 Hp) Ha)).
+    rewrite (frame_var H N e e' name k F HN HK Km (own_set name p k v Hp Ha) (set_not_path H p k v (proj1 Hp) Ha)).
     exact Hs.
 Qed.
 
 Lemma during_frame (H : WF2) (N : str -> Prop) fwd name p e e' :
-  env_frame N e e' -> (forall n, N n -> n <> name) ->
+  env_frame N e e' -> (forall n, N n -> n <> name) -> (forall n, N n -> known n) -> has_name name p ->
   lowinv (rank name) e' -> nodollar_paths e' ->
   during fwd name p e -> during fwd name p e'.
 Proof.
-  intros F HN L' D' [DV [DA _]].
+  intros F HN HK Hp L' D' [DV [DA _]]. pose proof (known_has_name name p Hp) as Km.
   assert (Rs : ~ path_var (setup_var name)) by (apply (reserved_not_path w dl (wf_base H)); exists name; tauto).
   assert (Rd : ~ path_var (dir_var name)) by (apply (reserved_not_path w dl (wf_base H)); exists name; tauto).
   assert (Os : own_var name (setup_var name)) by (unfold SetupFrame.own_var; tauto).
@@ -385,10 +447,10 @@ Proof.
   split; [|split; [|split; assumption]].
   - destruct fwd.
     + destruct DV as [D1 D2]. split.
-      * now rewrite (frame_var H N e e' name _ F HN Os Rs).
-      * now rewrite (frame_var H N e e' name _ F HN Od Rd).
-    + now rewrite (frame_var H N e e' name _ F HN Os Rs).
-  - intros q Hq Hne. apply (frame_absent H N e e' name q F HN Hq). now apply DA.
+      * now rewrite (frame_var H N e e' name _ F HN HK Km Os Rs).
+      * now rewrite (frame_var H N e e' name _ F HN HK Km Od Rd).
+    + now rewrite (frame_var H N e e' name _ F HN HK Km Os Rs).
+  - intros q Hq Hne. apply (frame_absent H N e e' name q F HN HK Hq). now apply DA.
 Qed.
 
 (* a dependency of [name] processed while [name]'s table is executed *)
@@ -405,6 +467,8 @@ Proof.
   pose proof (wf_rank H name m He) as Hr.
   assert (HN : forall n, touches (levels (S depth) j) m n -> n <> name).
   { intros n Ht ->. destruct (touches_rank H _ _ _ Ht) as [E|E]; [subst; lia|lia]. }
+  assert (HK : forall n, touches (levels (S depth) j) m n -> known n).
+  { intros n Ht. apply (touches_known (levels (S depth) j) m n); [now apply (known_dep name m)|assumption]. }
   pose proof (Hok st ds m fwd (S depth) j DN Hd) as G.
   assert (Hlow : lowinv (S (rank m)) (s_env st)) by (intros n Hn; apply DL; lia).
   pose proof (Hinv st ds m fwd (S depth) j DN Hd Hlow) as I.
@@ -413,11 +477,11 @@ Proof.
   assert (Lname : lowinv (rank name) (s_env st')).
   { intros n Hn. destruct (Nat.le_gt_cases (rank n) (rank m)) as [Hle|Hgt].
     - apply L'. lia.
-    - apply (frame_clause H _ (s_env st) (s_env st') n F); [|apply DL; lia].
+    - apply (frame_clause H _ (s_env st) (s_env st') n F); [|exact HK|apply DL; lia].
       intros x Hx ->. now apply (touches_not_above H _ _ _ Hx). }
   split.
-  - now apply (progress_frame H _ fwd name p todo (s_env st) (s_env st') F HN Hp).
-  - now apply (during_frame H _ fwd name p (s_env st) (s_env st') F HN).
+  - now apply (progress_frame H _ fwd name p todo (s_env st) (s_env st') F HN HK Hp).
+  - now apply (during_frame H _ fwd name p (s_env st) (s_env st') F HN HK Hp).
 Qed.
 
 Lemma progress_tail fwd p a todo e :
@@ -567,13 +631,23 @@ Lemma setup_step_inv (H : WF2) (rec : setup_fn) :
   fn_ok w cfg dl rec -> fn_inv rec -> fn_inv (setup_step w cfg rec).
 Proof.
   intros Hok Hinv st ds name fwd depth just Hnd Hdepth Hlow.
+  destruct (declared_dec w name) as [[p0 Hp0]|Hno].
+  2:{ (* an undeclared name: nothing happens *)
+      pose proof (setup_step_undeclared rec st ds name fwd depth just Hno) as U.
+      destruct (setup_step w cfg rec st ds name fwd depth just) as [ok st' ds'|st' ds'| |]; auto.
+      destruct U as [-> ->]. split; [assumption|split; [|discriminate]].
+      intros _ Hx. exfalso. destruct (find_setup_product w (s_env st) name) as [p|] eqn:E; [|now apply Hx].
+      apply (Hno p). now apply (find_setup_product_spec w (s_env st) name p). }
+  pose proof (known_has_name name p0 Hp0) as Kn.
+  assert (HKn : forall x, touches (levels depth just) name x -> known x).
+  { intros x Hx. now apply (touches_known (levels depth just) name x). }
   pose proof (setup_step_ok w cfg dl (wf_base H) rec Hok st ds name fwd depth just Hnd Hdepth) as G.
   (* names of the same rank (other than name) are not touched: their clauses follow from the frame *)
   assert (Hrest : forall st' , env_frame (touches (levels depth just) name) (s_env st) (s_env st') ->
                   lowinv (rank name) (s_env st') -> clause name (s_env st') -> lowinv (S (rank name)) (s_env st')).
   { intros st' F L C n Hn. destruct (str_eq_dec n name) as [->|Nn]; [assumption|].
     destruct (Nat.lt_ge_cases (rank n) (rank name)) as [Hlt|Hge]; [now apply L|].
-    apply (frame_clause H _ (s_env st) (s_env st') n F); [|apply Hlow; lia].
+    apply (frame_clause H _ (s_env st) (s_env st') n F); [|exact HKn|apply Hlow; lia].
     intros x Hx ->. destruct (touches_rank H _ _ _ Hx) as [E|E]; [now apply Nn|lia]. }
   remember (setup_step w cfg rec st ds name fwd depth just) as r eqn:Er.
   unfold setup_step in Er. destruct fwd.
@@ -613,7 +687,7 @@ Proof.
       - unfold st2, set_product_vars, set_env. cbn [s_env].
         rewrite alookup_aset_other by (apply not_eq_sym, setup_dir_differ). apply alookup_aset_same.
       - intros q Hq _. apply (absent_set_vars H q name p st1 (proj1 Hq)). now apply A1.
-      - apply (lowinv_frame_self H name (s_env st1)); [assumption|]. intros n Hn. apply L1. lia.
+      - apply (lowinv_frame_self H name (s_env st1) _ Kn); [assumption|]. intros n Hn. apply L1. lia.
       - assumption. }
     assert (PR : progress true p (p_actions p) (s_env st2)) by (split; intros; now left).
     pose proof (run_actions_inv H rec name p true depth just Hok Hinv Hp Hdepth (p_actions p)
@@ -649,7 +723,7 @@ Proof.
       - unfold st1, unset_product_vars, unset_env. cbn [s_env].
         rewrite alookup_aremove_other by apply setup_extra_differ. apply alookup_aremove_same.
       - intros q Hq Hne. apply (absent_unset_vars H q name st (proj1 Hq)). now apply CA.
-      - apply (lowinv_frame_self H name (s_env st)); [assumption|]. intros n Hn. apply Hlow. lia.
+      - apply (lowinv_frame_self H name (s_env st) _ Kn); [assumption|]. intros n Hn. apply Hlow. lia.
       - assumption. }
     assert (PR : progress false sp (p_actions sp) (s_env st1)) by (split; intros; now left).
     pose proof (run_actions_inv H rec name sp false depth just Hok Hinv Hp Hdepth (p_actions sp)
@@ -682,12 +756,18 @@ Theorem setup_preserves_Inv (H : WF2) fuel st ds name fwd depth just ok st' ds' 
   Inv (s_env st') /\ nodollar_paths (s_env st').
 Proof.
   intros Hnd Hd HI Hrun.
+  destruct (declared_dec w name) as [[p0 Hp0]|Hno].
+  2:{ destruct fuel as [|fuel]; [discriminate|]. cbn [setup] in Hrun.
+      pose proof (setup_step_undeclared (setup w cfg fuel) st ds name fwd depth just Hno) as U.
+      rewrite Hrun in U. destruct U as [_ ->]. split; assumption. }
+  pose proof (known_has_name name p0 Hp0) as Kn.
   pose proof (setup_inv H fuel st ds name fwd depth just Hnd Hd (fun n _ => HI n)) as I0.
   pose proof (setup_frame w cfg dl (wf_base H) fuel st ds name fwd depth just Hnd Hd) as G.
   rewrite Hrun in I0, G. destruct I0 as [L _]. destruct G as [F [D _]]. split; [|assumption].
   intro n. destruct (Nat.lt_ge_cases (rank n) (S (rank name))) as [Hlt|Hge]; [now apply L|].
-  apply (frame_clause H _ (s_env st) (s_env st') n F); [|apply HI].
-  intros x Hx ->. apply (touches_not_above H _ _ _ Hx). lia.
+  apply (frame_clause H _ (s_env st) (s_env st') n F); [| |apply HI].
+  - intros x Hx ->. apply (touches_not_above H _ _ _ Hx). lia.
+  - intros x Hx. now apply (touches_known (levels depth just) name x).
 Qed.
 
 End Inv.
